@@ -766,7 +766,8 @@ def main(ck):
                     # the series named by drop3 lives only in the index created after the restart; no restart since
                     if lab == {"d3"} and h.get("drop3") and o["mst"] == h["drop3"]["mst"] and corr_ok:
                         fid = F_NEWIDX
-                elif st["phase"] == "after-crash":
+                elif st["phase"] in ("after-crash", "after-recreate", "after-recreate-restart", "after-recreate-measurement"):
+                    # (what a lost drop or a WAL replay left behind at the first kill stays visible in the phases that follow)
                     need = set()
                     if "d2" in lab and h.get("drop2") and o["mst"] == h["drop2"]["mst"]:
                         need.add(F_CRASH)
